@@ -42,6 +42,15 @@
     lower-level ones, so a trapped thread would contradict one of them). The only way a thread
     of the model can die is an index outside the metadata buffers (C18).
 
+  * `conc_public_put_of_held_succeeds` — **the second clause at the public interface, every
+    interleaving: every free of a held block succeeds.** `LLFree::put` can return an error only
+    from its argument check once the lower allocator accepts the block (`put_LS`: thread-local,
+    against arbitrary interference), and the check cannot reject a held block: by the global
+    invariant every block in a thread's hands lies inside the managed range, is aligned to its
+    order (for multi-huge orders from the aligned search positions of `Lower::get`) and has an
+    order up to the tree order. The strict runner `runUS` stops at the first failing `put`; no
+    finished thread reports one (`Proofs/ConcPutOk.lean`).
+
   * `k2_online_race_panics` — **a second refutation** (known finding K2): a free into an offline
     tree that races with `change_tree(Online)` panics in the counter assertion of `Tree::put`
     (the frames of the free are counted once by the Online fetch and once by the free itself);
@@ -60,6 +69,7 @@ import LLFreeV.Proofs.OwnThreads
 import LLFreeV.Proofs.OwnLowerThreads
 import LLFreeV.Proofs.OwnUpperThreads
 import LLFreeV.Proofs.ConcUpperThreads
+import LLFreeV.Proofs.ConcPutOk
 namespace LLFree.C03
 open LLFree
 
@@ -186,5 +196,27 @@ theorem conc_public_api_no_panic (c : Cfg) (ok : CfgOk c) (H : Nat → Nat) (m :
     (hd : ((concRun sched (m, fun k => Th.at (runU c (cmds k) ⟨[], []⟩))).2 k).step
       (concRun sched (m, fun k => Th.at (runU c (cmds k) ⟨[], []⟩))).1 = .dead s) : s = oobMsg :=
   upper_conc_no_panic ok H m inv n cmds hvalid sched hsched k hk s hd
+
+/-- **Every free of a held block succeeds, in any interleaving, at the public interface** (valid
+    parameters, frees at the allocation order): a thread of the strict runner — which ends at the
+    first `put` returning an error, with the flag set — never finishes with the flag set and never
+    traps. -/
+theorem conc_public_put_of_held_succeeds (c : Cfg) (ok : CfgOk c) (H : Nat → Nat) (m : Mem) (inv : UpperInv0 c H m)
+    (n : Nat) (cmds : Nat → List UCmd) (hvalid : ∀ k, ∀ x ∈ cmds k, x.validS c) (sched : List Nat) (hsched : ∀ k ∈ sched, k < n)
+    (k : Nat) (hk : k < n) :
+    match ((concRun sched (m, fun k => Th.at (runUS c (cmds k) ⟨[], []⟩))).2 k).step
+        (concRun sched (m, fun k => Th.at (runUS c (cmds k) ⟨[], []⟩))).1 with
+    | .done a => a.2 = false
+    | .dead s => s = oobMsg
+    | .step _ _ _ => True :=
+  upper_conc_put_succeeds ok H m inv n cmds hvalid sched hsched k hk
+
+/-- the flag is not vacuous: a `put` that returns an error ends the strict runner with the flag set -/
+theorem put_failure_is_reported (c : Cfg) (b : Blk) (cls : Nat) (loc : Option Nat) (rest : List UCmd) (e : Err) (m m' : Mem)
+    (h : runSolo (put c b.i ⟨b.order, cls, loc⟩) m = (m', .ok (.error e))) :
+    runSolo (runUS c (.putS 0 cls loc :: rest) ⟨[b], []⟩) m = (m', .ok (⟨[b], []⟩, true)) := by
+  unfold runUS
+  simp only [List.getElem?_cons_zero, runSolo_bind, h, Outcome.andThen]
+  rfl
 
 end LLFree.C03
